@@ -64,7 +64,10 @@ def work(job):
                                     "ret": obs.get("ret") if obs["ok"] else None, "globals": obs.get("globals") if obs["ok"] else None, "msg": obs.get("msg"), "where": obs.get("where"), "steps": obs.get("steps")})
             # store with the real front end, in its own process
             nsl_path = os.path.join(scratch, tag.replace(":", "_") + ".nsl")
-            ir_path = os.path.join(scratch, tag.replace(":", "_") + ".nslir")
+            # the unoptimised module is stored as <name>.nslir, the optimised one next to it under the same stem with another suffix:
+            # a stored file is loaded by the path it was stored under
+            stem = os.path.join(scratch, (ident + "-O0").replace(":", "_"))
+            ir_path = stem + (".O1" if opt else ".nslir")
             open(nsl_path, "w").write(src)
             cmd = [sys.executable, os.path.join(repo, "nslc.py"), nsl_path, "-o", ir_path] + (["-O,--optimization-level", "1"] if opt else [])
             p = subprocess.run(cmd, capture_output=True, text=True, cwd=scratch, env=dict(os.environ, PYTHONPATH=repo))
@@ -196,7 +199,7 @@ def run(ctx, args):
     return common.finish(
         ctx, level="model_checking", evaluations=stored, distinct_nontrivial=nontrivial,
         rule=f"{n} seeded programs (int and uint mixed, structs, arrays, calls, vectors) + {len(fam[::3])} optimiser-family programs x 2 optimisation levels: compiled in process 1 "
-             "(reference), stored by `nslc.py -o` in process 2, loaded by FilesystemModuleLoader in process 3 (from its own path and from one path that all modules of that process are copied to in turn); four functions whose first statement is a loop; listing, projection and VM results on 2 inputs compared; "
+             "(reference), stored by `nslc.py -o` in process 2, loaded by FilesystemModuleLoader in process 3 (from its own path - the optimised module is stored as <stem>.O1 next to the unoptimised <stem>.nslir - and from one path that all modules of that process are copied to in turn); four functions whose first statement is a loop; listing, projection and VM results on 2 inputs compared; "
              "reloaded functions checked by IRWellFormed (TLC, all paths); results judged against NslSem (TLC). distinct_nontrivial = identical reloads with more than 25 listing lines.",
         samples=samples, traces_validated=counts.get("reload-identical", 0),
         assumptions=["identical behaviour = identical repr of the returned value and of the globals, identical failure class",
